@@ -632,9 +632,21 @@ def prop_c06(k, cs, code, ckey):
     read back to the original up to the declared length; secrets never in clear"""
     key, comps = unhx(k), b3.parse_comps(cs)
     code, ckey = unhx(code), unhx(ckey)
-    for framing in ("bf3", "bec2"):
+    given_key = key
+    for framing in ("bf3", "bec2", "bec2-nokey"):
+        key = given_key
         try:
-            if framing == "bf3":
+            if framing == "bec2-nokey":
+                # no session key given: the file object draws one (registered random source, no oracle) - the same one for the
+                # auth blocks, the directory MACs, the component cipher and whoever asks the object afterwards
+                f0 = Bec2File(mkfile({}, b3.parse_comps(cs)), [InitCustKeyAuthBlock(), UpdateAuthBlock(code, 7)])
+                before = f0.session_key
+                binary = f0.to_binary([SoftwareCustKeyEncryptor(bytes(range(16)), ckey, 0)])
+                key = f0.session_key
+                if not isinstance(key, bytes) or len(key) != 16 or key != before:
+                    return f"FAIL {framing}: the file object reports the session key {before!r} before and {key!r} after writing"
+                body_off = _header_tlvs(binary)[1]
+            elif framing == "bf3":
                 binary = b3.BF3_FILE_SIG + mkfile({}, b3.parse_comps(cs)).to_binary(5, key)
                 body_off = 5
             else:
@@ -662,7 +674,7 @@ def prop_c06(k, cs, code, ckey):
                     return f"FAIL {framing}: component {i} is not stored as AES-128-CBC(zero IV) of the zero-padded content"
         # secrets in clear?
         needles = [("session key", key)] if key != bytes(16) else []
-        if framing == "bec2":
+        if framing != "bf3":
             needles += [("security code", code), ("customer key", ckey)]
         for c in comps:
             if c.encrypt_by_session_key:
@@ -678,8 +690,10 @@ def prop_c06(k, cs, code, ckey):
             if framing == "bf3":
                 got = Bf3File.read_file(io.StringIO(b3.to_text(binary)), True, key).components
             else:
-                got = Bec2File.read_file(io.StringIO(b3.to_text(binary)),
-                                         [SoftwareCustKeyEncryptor(bytes(range(16)), ckey, 0)], True).bf3file.components
+                back = Bec2File.read_file(io.StringIO(b3.to_text(binary)), [SoftwareCustKeyEncryptor(bytes(range(16)), ckey, 0)], True)
+                if back.session_key != key:
+                    return f"FAIL {framing}: the file reads back with another session key than the writing object reports"
+                got = back.bf3file.components
         except Exception as e:
             return f"FAIL {framing}: reader raises {type(e).__name__}: {e}"
         for i, (c, g) in enumerate(zip(comps, got)):
@@ -1078,6 +1092,8 @@ def prop_c09hist(sel, seed, steps):
     }
     trail = []
     bec = None
+    # the recipients' own long-lived decryptor objects: each opens every block that was made for it, one after the other
+    openers = {"A": EccDecryptor(sel, priv_key(dA)), "B": EccDecryptor(sel, priv_key(dB))}
     for step in range(int(steps)):
         who = rng.choice(list(recipients))
         mk, pub = recipients[who]
@@ -1102,6 +1118,14 @@ def prop_c09hist(sel, seed, steps):
         if got != key:
             return (f"FAIL after packing the same block object for {' '.join(trail)}: the last block is not addressed to its "
                     f"recipient ({who}): the recipient's key recovers {got.hex()} instead of the session key {key.hex()}")
+        if who in openers:
+            try:
+                back, sk = InitEccAuthBlock.unpack(raw, [openers[who]])
+            except Exception as e:
+                return f"FAIL after {' '.join(trail)}: the recipient's long-lived decryptor object raises {type(e).__name__}: {e}"
+            if sk != key:
+                return (f"FAIL after {' '.join(trail)}: the recipient's long-lived decryptor object (it has opened "
+                        f"{sum(1 for t in trail[:-1] if t.startswith(who))} blocks before) recovers {bytes(sk).hex()} instead of {key.hex()}")
     return "ok"
 
 
